@@ -225,6 +225,147 @@ func c09Resume(c *hx.Ctx) []*scenario {
 	return out
 }
 
+// one persistent session carried over three and more connections: every stage of a QoS 1 / QoS 2 flow (request,
+// PUBREC, final acknowledgement) on the connection of the request or on any later one, the connection cut after
+// each stage; one flow alone, and two flows (different ids, mixed QoS, a SUBSCRIBE as traffic that takes an id but
+// is never stored) side by side.  Every connection after the first begins with the listing for the
+// retransmission: it must be exactly what the history of the session left recorded (the PUBREL once the PUBREC
+// arrived, whatever was listed on an earlier connection), and exactly that is retransmitted.
+type lflow struct {
+	kind  string // q1 q2 sub
+	start int    // connection on which the request is issued
+	rec   int    // connection on which the PUBREC arrives (q2 only); 0: never
+	ack   int    // connection on which PUBACK / PUBCOMP / SUBACK arrives; 0: never
+}
+
+func (f lflow) text() string {
+	s := fmt.Sprintf("%ss%d", f.kind, f.start)
+	if f.kind == "q2" {
+		s += fmt.Sprintf("r%d", f.rec)
+	}
+	return s + fmt.Sprintf("a%d", f.ack)
+}
+
+// every flow of a kind over n connections
+func lflows(kind string, n int) []lflow {
+	var out []lflow
+	for s := 1; s <= n; s++ {
+		if kind != "q2" {
+			for a := s; a <= n; a++ {
+				out = append(out, lflow{kind: kind, start: s, ack: a})
+			}
+			out = append(out, lflow{kind: kind, start: s})
+			continue
+		}
+		for r := s; r <= n; r++ {
+			for a := r; a <= n; a++ {
+				out = append(out, lflow{kind: kind, start: s, rec: r, ack: a})
+			}
+			out = append(out, lflow{kind: kind, start: s, rec: r})
+		}
+		out = append(out, lflow{kind: kind, start: s})
+	}
+	return out
+}
+
+func ledgerScript(cfg cfgT, n int, flows []lflow) []step {
+	var steps []step
+	call := 0
+	id := packet.ID(0)
+	ids := make([]packet.ID, len(flows))
+	for k := 1; k <= n; k++ {
+		call++
+		steps = append(steps, opening(cfg, call, k > 1)...)
+		for i, f := range flows {
+			if f.start != k {
+				continue
+			}
+			call++
+			id++
+			ids[i] = id
+			switch f.kind {
+			case "q1":
+				steps = append(steps, sPub(call, 1))
+			case "q2":
+				steps = append(steps, sPub(call, 2))
+			case "sub":
+				steps = append(steps, sSub(call, 1))
+			}
+		}
+		for i, f := range flows {
+			if f.kind == "q2" && f.rec == k {
+				steps = append(steps, sB(&packet.Pubrec{ID: ids[i]}), sIdle())
+			}
+		}
+		for i, f := range flows {
+			if f.ack != k {
+				continue
+			}
+			switch f.kind {
+			case "q1":
+				steps = append(steps, sB(&packet.Puback{ID: ids[i]}), sIdle())
+			case "q2":
+				steps = append(steps, sB(&packet.Pubcomp{ID: ids[i]}), sIdle())
+			case "sub":
+				steps = append(steps, sB(&packet.Suback{ID: ids[i], ReturnCodes: []packet.QOS{1}}), sIdle())
+			}
+		}
+		if k < n {
+			steps = append(steps, sDrop(), sIdle())
+		}
+	}
+	call++
+	return append(steps, sDisc(call, false))
+}
+
+func c09Ledger(c *hx.Ctx) []*scenario {
+	var out []*scenario
+	cfg := cfgPersist
+	add := func(n int, flows ...lflow) {
+		name := fmt.Sprintf("ledger/n%d", n)
+		for _, f := range flows {
+			name += "-" + f.text()
+		}
+		out = append(out, &scenario{name: name, steps: ledgerScript(cfg, n, flows)})
+	}
+	// one flow alone over four connections: every combination of stages and connections
+	const n = 4
+	q2 := lflows("q2", n)
+	q1 := lflows("q1", n)
+	for _, f := range q2 {
+		add(n, f)
+	}
+	for _, f := range q1 {
+		add(n, f)
+	}
+	// two flows side by side over three connections (thorough: all; quick: a seeded selection), the second of
+	// any kind
+	a3 := lflows("q2", 3)
+	b3 := append(append(append([]lflow(nil), a3...), lflows("q1", 3)...), lflows("sub", 3)...)
+	for _, a := range a3 {
+		for _, b := range b3 {
+			if !c.Thorough() && c.Rng.Intn(8) != 0 {
+				continue
+			}
+			if c.Rng.Intn(2) == 0 {
+				add(3, a, b)
+			} else {
+				add(3, b, a)
+			}
+		}
+	}
+	// three flows over four connections, seeded
+	all4 := append(append(append([]lflow(nil), q2...), q1...), lflows("sub", n)...)
+	rounds := 12
+	if c.Thorough() {
+		rounds = 200
+	}
+	for i := 0; i < rounds; i++ {
+		add(n, q2[c.Rng.Intn(len(q2))], all4[c.Rng.Intn(len(all4))], all4[c.Rng.Intn(len(all4))])
+	}
+	return out
+}
+
 // API calls from several goroutines at once, a well-behaved broker answering
 func c09Concurrent(c *hx.Ctx) []*scenario {
 	var out []*scenario
@@ -321,6 +462,51 @@ func resendBeforeNew() []*scenario {
 	return out
 }
 
+// Close / Disconnect while the processor is inside the application's callback (held at a gate) for an inbound QoS
+// 0/1/2 message: the call returns - whether before or after the callback has returned is the code's business, it
+// gets a bounded chance to - and from then on the client is at rest: the callback's return, the acknowledgement
+// that can no longer be sent and the teardown of the processor must not follow the return of Close
+// (clause closed_means_quiet; the service's supervisor hands the session to its next client right after Close)
+func closeWhileCallbackBusy(thorough bool) []*scenario {
+	var out []*scenario
+	for ci, base := range []cfgT{cfgDefault, cfgPersist} {
+		for _, early := range []bool{false, true} {
+			for q := byte(0); q <= 2; q++ {
+				if early && q != 2 {
+					continue // the mode only changes where a QoS 2 message is delivered
+				}
+				for _, how := range []string{"close", "disc", "disctmo"} {
+					if how == "disctmo" && !thorough {
+						continue
+					}
+					cfg := base
+					cfg.early = early
+					var pre []step
+					var held packet.Generic = inPub(uint16(q), q, false)
+					if q == 2 && !early {
+						pre = []step{sB(inPub(2, 2, false)), sIdle()}
+						held = &packet.Pubrel{ID: 2}
+					}
+					end := sClose(2)
+					switch how {
+					case "disc":
+						end = sDisc(2, false)
+					case "disctmo":
+						end = sDisc(2, true)
+					}
+					// a second client on the same session afterwards: it must find the session to itself
+					out = append(out, &scenario{name: fmt.Sprintf("regress/%s-while-callback-busy-q%d-e%s-c%d", how, q, hx.B01(early), ci),
+						gates: []gateSpec{{kind: "cb", k: 1, post: true, name: "g"}},
+						steps: cat(opening(cfg, 1, false), pre, []step{sB(held), sWaitGate("g"), sAsync(end), {op: "trywaitret", c: 2, n: 100},
+							sRelease("g"), sWaitRet(2), {op: "sleep", n: 20}},
+							opening(cfg, 3, ci == 1), []step{sPub(4, 1), sB(&packet.Puback{ID: 1}), sIdle(), sDisc(5, false)})})
+				}
+			}
+		}
+	}
+	return out
+}
+
 func c09Regress(c *hx.Ctx) []*scenario {
 	var out []*scenario
 	for ci, cfg := range []cfgT{cfgPersist, cfgDefault} {
@@ -400,6 +586,7 @@ func c09Regress(c *hx.Ctx) []*scenario {
 				[]step{sNew(cfgPersist), sConnect(4, cfgPersist), sConnack(true, 0), sWaitGate("g"), sAsync(sClose(5)), sWaitGate("c"),
 					sRelease("g"), {op: "trywaitfut", c: 4, n: 100}, sRelease("c"), sWaitRet(5), sWaitFut(4)})},
 	)
+	out = append(out, closeWhileCallbackBusy(c.Thorough())...)
 	out = append(out, &scenario{name: "regress/D8-reset", failAt: map[string]int{"reset": 1}, steps: []step{sNew(cfgDefault), sConnect(1, cfgDefault), sClose(2)}})
 	return out
 }
@@ -434,6 +621,7 @@ func c09Scenarios(c *hx.Ctx) []*scenario {
 	out = append(out, c09Faults(c)...)
 	out = append(out, c09Concurrent(c)...)
 	out = append(out, c09Acks(c)...)
+	out = append(out, c09Ledger(c)...) // last: draws from c.Rng
 	return out
 }
 
